@@ -153,6 +153,13 @@ class PSWork(O.Monitor):
             self.activity["max_sharing"] = max(self.activity["max_sharing"], len(now_sh))
             if len(O.customers(nd)) > len(now_sh):
                 self.activity["capacity_bound_waiting"] += 1
+            # sharing capacity: at most c customers share, and nobody waits while a sharing place is free
+            sv = self.spec["nodes"][nid - 1]["servers"]
+            if sv["kind"] == "int":
+                if len(now_sh) > sv["c"]:
+                    rep("at-most-capacity-customers-share", {"node": nid, "sharing": len(now_sh), "capacity": sv["c"]})
+                elif len(now_sh) < sv["c"] and len(O.customers(nd)) > len(now_sh):
+                    rep("nobody-waits-while-a-sharing-place-is-free", {"node": nid, "sharing": len(now_sh), "present": len(O.customers(nd)), "capacity": sv["c"]})
             for key in [k_ for k_, w in self.work.items() if w[0] == nid]:
                 w = self.work[key]
                 ind = w[3]
@@ -300,6 +307,18 @@ def busy_execute(case):
     return out
 
 
+@st.composite
+def huge_ps_case(draw):
+    """One PS node whose sharing capacity is in the hundreds and really fills up (large batches, long requirements)."""
+    c = draw(st.integers(250, 300))
+    batch = draw(st.sampled_from([90, 130, 160]))
+    return {"classes": [{"name": "C0", "priority": 0, "arrival": [["det", draw(st.sampled_from([0.5, 1.0]))]], "batch": [["det", batch]],
+                         "service": [draw(st.sampled_from([["det", 20.0], ["det", 35.0], ["uni", 15.0, 40.0]]))],
+                         "routing": {"kind": "matrix", "rows": [[0.0]]}}],
+            "nodes": [{"cap": "inf", "ps": True, "ps_threshold": draw(st.integers(1, 3)), "servers": {"kind": "int", "c": c}}],
+            "plan": {"kind": "max_time", "T": [draw(st.sampled_from([3.25, 4.25, 5.25]))]}, "seed": draw(st.integers(0, 99)), "event_budget": 400}
+
+
 def subchecks(tier):
     w = {"ps": 1.0, "inf": 0.2, "priorities": 0.25, "batching": 0.3, "routing_objects": 0.3, "self_loops": 0.4, "cc_after": 0.2,
          "process_routing": 0.2, "discipline": 0.1}
@@ -314,6 +333,10 @@ def subchecks(tier):
                         classes=lambda a, spec, res: [k for k in ("ties_at_ps", "capacity_bound_waiting") if a.get(k)], log=True,
                         n={"quick": 4800, "thorough": 30000},
                         rule="tie-rich grid inputs: per-customer integration of received work over observed sharing sets == logged requirement at departure; no overstay"),
+        system_subcheck("huge_ps", None, lambda spec: [PSWork(spec)], lambda a, spec, res: a.get("max_sharing", 0) >= 250 and a.get("capacity_bound_waiting", 0) >= 1,
+                        classes=lambda a, spec, res: [k for k in ("ties_at_ps", "capacity_bound_waiting") if a.get(k)], log=True, strategy=huge_ps_case(),
+                        n={"quick": 48, "thorough": 400},
+                        rule="one PS node with a sharing capacity of 250-300 that fills up (batches of 90-160): at most `capacity` customers share, the others wait; same work monitor"),
         system_subcheck("fluid", prof, lambda spec: [PSMonitor(spec)], nontrivial, classes=classes, log=True,
                         n={"quick": 7200, "thorough": 40000}, rule="records at PS nodes vs exact-rational fluid model; sharing monitor"),
         SubCheck("busy_periods", busy_execute, strategy=busy_case(), n={"quick": 4800, "thorough": 20000}, kind="metamorphic", is_spec=False,
